@@ -48,7 +48,8 @@ def comment_list(comment: None | str | list[str]):
     if isinstance(comment, str):
         comment = [comment]
 
-    return [f"-- {c}" for c in comment]
+    # line breaks inside a comment string start a new comment line
+    return [f"-- {part}" for c in comment for part in (str(c).splitlines() or [""])]
 
 
 class Statement:
